@@ -203,8 +203,24 @@ impl AsyncFileSystem for AsyncOverlayFS {
                 _ => return Err(err),
             },
         }
-        self.write_path(path)?.create_dir().await?;
         let whiteout_path = self.whiteout_path(path)?;
+        if whiteout_path.exists().await? {
+            // the path was removed earlier and is created anew: whatever the lower layers still
+            // hold below it (e.g. below a file that shadowed a lower directory) stays removed
+            for layer in &self.layers[1..] {
+                let layer_path = layer.join(&path[1..])?;
+                if layer_path.is_dir().await? {
+                    let mut children = layer_path.read_dir().await?;
+                    while let Some(child) = children.next().await {
+                        let marker =
+                            self.whiteout_path(&format!("{}/{}", path, child.filename()))?;
+                        marker.parent().create_dir_all().await?;
+                        marker.create_file().await?;
+                    }
+                }
+            }
+        }
+        self.write_path(path)?.create_dir().await?;
         if whiteout_path.exists().await? {
             whiteout_path.remove_file().await?;
         }
